@@ -515,6 +515,17 @@ impl ProxyServer {
         // forward the request to the target server
         let mut proxy_request = request;
 
+        // a body framed by Transfer-Encoding overrides a Content-Length that is declared as well;
+        // an intermediary must not forward that Content-Length (RFC 9112 section 6.3)
+        if proxy_request
+            .headers()
+            .contains_key(hyper::header::TRANSFER_ENCODING)
+        {
+            proxy_request
+                .headers_mut()
+                .remove(hyper::header::CONTENT_LENGTH);
+        }
+
         // Add required headers
         let host_claims = format!(
             "{{ \"{}\": \"{}\"}}",
